@@ -338,6 +338,14 @@ def c10(tier, seed, replay=None):
     cov["traces_validated_against_impl"] += vsn["cases"]
     cov["evaluations"] += vsn["cases"]
     cov["vector_space_layer_ownership"] = vsn
+    # the library's own users of flatten / unflatten: the optimizers of autograd.misc (starting point intact, iterates handed to the
+    # callback never changed afterwards, no memory shared between the result and the starting point)
+    mp = algebra.misc_part(v1, "opt")
+    cov["optimizers_ownership"] = mp
+    for k_ in ("states", "transitions"):
+        cov[k_] += mp[k_]
+    cov["traces_validated_against_impl"] += mp["cases"]
+    cov["evaluations"] += mp["cases"]
     rc = v1.finish()
     vlib.write_evidence("C10", tier, seed, "model_checking", cov, assume + rules.ASSUME, time.time() - t0, len(v1.violations))
     return rc
